@@ -34,6 +34,8 @@ type NeighborState struct {
 
 	// time of last sync interest
 	lastSeen time.Time
+	// time of last sync interest received on the face in use (faceId)
+	lastSeenFace time.Time
 	// latest known face ID
 	faceId uint64
 	// the received advertisement is active face
@@ -97,22 +99,30 @@ func (ns *NeighborState) IsDead() bool {
 // Return => true if the face ID has changed
 func (ns *NeighborState) RecvPing(faceId uint64, active bool) (error, bool) {
 	// Update last seen time for neighbor
-	ns.lastSeen = time.Now()
+	now := time.Now()
+	ns.lastSeen = now
 
 	// If face ID has changed, re-register face.
 	if ns.faceId != faceId {
-		if ns.isFaceActive && !active {
+		// An active ping takes precedence over a passive one, but only as long
+		// as the active face is still heard from. When its link is gone (and
+		// the neighbor stays alive through the passive pings), the routes to
+		// the neighbor must move to the face the neighbor can be reached on.
+		if ns.isFaceActive && !active && now.Sub(ns.lastSeenFace) <= ns.nt.config.RouterDeadInterval() {
 			// This ping is passive, but we already have an active ping.
 			return nil, false // ignore this ping.
 		}
 
 		ns.isFaceActive = active
+		ns.lastSeenFace = now
 		log.Infof("neighbor: %s face ID changed from %d to %d", ns.Name, ns.faceId, faceId)
 		ns.routeUnregister()
 		ns.routeRegister(faceId)
 		return nil, true
 	}
 
+	// Ping on the face in use
+	ns.lastSeenFace = now
 	return nil, false
 }
 
